@@ -9,6 +9,12 @@
 //!    run by the PEG interpreter + builder model): full AST with positions, parse-error position, panic site.
 //! O: REAL result vs the abstract document the text was rendered from — structure first, then positions (= the
 //!    token starts the renderer recorded); block strings vs the spec's BlockStringValue().
+//!
+//! Large documents (`c07/big.rs`, 100 KB … several MB: many / wide / deep definitions, long selection sets, big
+//! descriptions and values) are judged by O against the document they were rendered from (all positions); K only
+//! on a sample (byte budget). Stateful sequences (`c07/seq.rs`): sequences of parse calls (operation / type-system,
+//! valid / invalid, small / large) in ONE child process vs each call alone in a fresh process — parsing must be a
+//! function of the text.
 use nvh::gen::*;
 use nvh::gm::*;
 use nvh::render::*;
@@ -19,7 +25,12 @@ use serde_json::{json, Value};
 mod common;
 #[path = "c07/mutate.rs"]
 mod mutate;
+#[path = "c07/big.rs"]
+mod big;
+#[path = "c07/seq.rs"]
+mod seq;
 use common::*;
+use seq::{Call, GenParams, Runner, Summ};
 
 const RULE: &str = "a text is non-trivial if it parses to ≥ 2 definitions or contains an argument, directive, description or fragment (distinct by text)";
 
@@ -53,10 +64,17 @@ fn first_diff(a: &Sexp, b: &Sexp) -> String {
     "same".into()
 }
 
+/// long texts are shown by their head in messages
+fn show_text(t: &str) -> String {
+    if t.len() > 4000 { format!("{}… ({} bytes)", t.chars().take(300).collect::<String>(), t.len()) } else { t.to_string() }
+}
+
 struct Ctx<'a> {
     rep: &'a mut Report,
     drv: &'a mut Driver,
     slowest_ms: u128,
+    /// judge by O in `run` (off for the K sample of the large-document stream, which has its own O)
+    judge_o: bool,
 }
 
 impl<'a> Ctx<'a> {
@@ -70,7 +88,7 @@ impl<'a> Ctx<'a> {
             match sh.head() {
                 Some("ok") => self.rep.count_n("shape:pairs-checked", sh.args()[0].as_int().unwrap_or(0) as u64),
                 Some("noparse") => {}
-                _ => self.rep.fail("K", "shape:children-not-in-shape", &format!("{:?}: a pair's children are outside Shape.ruleShape of its rule: {}", c.text, sh.to_line()), c.json()),
+                _ => self.rep.fail("K", "shape:children-not-in-shape", &format!("{:?}: a pair's children are outside Shape.ruleShape of its rule: {}", show_text(&c.text), sh.to_line()), c.json()),
             }
         }
         for (c, ans) in cases.iter().zip(answers.iter()) {
@@ -95,9 +113,12 @@ impl<'a> Ctx<'a> {
                     (Res::Panic(_), Res::Panic(_)) => format!("parse-{}:panic-site", c.kind),
                     _ => format!("parse-{}:outcome-{}-vs-{}", c.kind, real.kind(), model.kind()),
                 };
-                self.rep.fail("K", &sig, &format!("{:?}: code → {} ; model → {}", c.text, real.show(), model.show()), c.json());
+                self.rep.fail("K", &sig, &format!("{:?}: code → {} ; model → {}", show_text(&c.text), real.show(), model.show()), c.json());
             }
             // ---- O: code = the denoted document
+            if !self.judge_o {
+                continue;
+            }
             if let Some(exp) = &c.expect {
                 self.rep.o_cases += 1;
                 match &real {
@@ -345,16 +366,263 @@ fn corpus() -> Vec<Case> {
     v
 }
 
+// ------------------------------------------------------------------------------------------------
+// large documents and stateful sequences
+
+fn call_of_big(b: &big::Big, g: &GenParams) -> Call {
+    Call { kind: b.kind, text: b.text.clone(), expect: Some(b.expect.clone()), bounds: b.bounds.clone(), tag: seq::large_tag(b.kind, "valid", b.shape), gen: Some(g.clone()) }
+}
+
+/// the smallest documents of each kind and outcome (predecessors tried when a failure depends on the process state)
+fn tiny_calls() -> Vec<Call> {
+    let mk = |kind: &'static str, text: &str, valid: bool| Call::literal(kind, text.to_string(), None, format!("{kind}:tiny:{}", if valid { "valid" } else { "invalid" }));
+    vec![mk("op", "{ a }", true), mk("ts", "scalar S", true), mk("op", "query {", false), mk("ts", "type T {", false)]
+}
+
+/// A valid document was judged wrong in THIS process (which has parsed thousands of texts before). Reduce it to
+/// something a fresh process reproduces: the document alone, or a predecessor followed by the document.
+fn reduce_in_process_failure(rep: &mut Report, run: &mut Runner, c: &Call, here: &Summ, budget: &mut usize) {
+    let fresh = run.fresh(c);
+    if let Some((sig, what)) = seq::judge_expect(run, c, &fresh) {
+        let m = if *budget > 0 { *budget -= 1; seq::minimise_single(run, c, &sig) } else { c.clone() };
+        rep.fail("O", &sig, &what, seq::seq_case(&[], &m, "large-document"));
+        return;
+    }
+    // fine in a fresh process: the result depends on what the process parsed before
+    for p in tiny_calls() {
+        if let Some((f, s)) = seq::differs(run, std::slice::from_ref(&p), c) {
+            if *budget > 0 {
+                *budget -= 1;
+                let (mp, ml) = seq::minimise(run, vec![p.clone()], c.clone());
+                if let Some((f2, s2)) = seq::differs(run, &mp, &ml) {
+                    seq::report_state(rep, &mp, &ml, &f2, &s2, "large-document-in-long-lived-process");
+                    return;
+                }
+            }
+            seq::report_state(rep, &[p], c, &f, &s, "large-document-in-long-lived-process");
+            return;
+        }
+    }
+    let sig = format!("stateful:{}-after-long-session:{}-became-{}", c.kind, fresh.outcome, here.outcome);
+    rep.fail("O", &sig, &format!("the {} document {:?}… ({} bytes) gives [{}] in a fresh process but [{}] in this process after the earlier streams (not reproduced by one predecessor)", c.kind, c.text.chars().take(120).collect::<String>(), c.text.len(), fresh.show(), here.show()),
+        seq::seq_case(&[], c, "large-document-in-long-lived-process"));
+}
+
+/// no document larger than this goes through the Lean interpreter
+const K_DOC_LIMIT: usize = 400_000;
+
+/// (documents, bytes, largest, K-sampled bytes)
+fn large_stream(ctx: &mut Ctx, run: &mut Runner, rng: &mut Rng, args: &Args) -> (u64, u64, u64, u64) {
+    let n = args.budget(8, 40);
+    let (lo, hi) = (105_000usize, args.budget(250_000, 2_600_000));
+    let depth = args.budget(48, 120);
+    // the Lean interpreter needs ≈ 10 s per MB on these texts: K only while this byte budget lasts
+    let mut k_left = args.budget(170_000, 3_000_000);
+    let mut reduce_budget = 2usize;
+    let (mut docs, mut bytes, mut largest, mut k_bytes) = (0u64, 0u64, 0u64, 0u64);
+    let first_shape = rng.below(8);
+    for i in 0..n {
+        // every shape in turn (starting anywhere, so the K sample moves over the shapes with the seed); sizes grow
+        let target = lo + (hi - lo) * i / (n - 1);
+        let tg = std::time::Instant::now();
+        let params = GenParams { rng_state: rng.0, shape: first_shape + i, target, depth, prefix: None, mutate_state: None };
+        let b = big::gen_big(rng, first_shape + i, target, depth);
+        let gen_ms = tg.elapsed().as_millis();
+        docs += 1;
+        bytes += b.text.len() as u64;
+        largest = largest.max(b.text.len() as u64);
+        ctx.rep.count(&format!("large:{}", b.shape));
+        ctx.rep.count(&format!("large:size:{}", match b.text.len() { 0..=99_999 => "<100K", 100_000..=249_999 => "100K-250K", 250_000..=499_999 => "250K-500K", 500_000..=999_999 => "500K-1M", _ => ">=1M" }));
+        ctx.rep.count_n("large:definitions", b.defs() as u64);
+        for f in &b.features {
+            ctx.rep.count(&format!("feature:{f}"));
+        }
+        // ---- O in this long-lived process: all of the structure and every position
+        let t0 = std::time::Instant::now();
+        let real = real_parse(b.kind, &b.text);
+        let parse_ms = t0.elapsed().as_millis();
+        ctx.slowest_ms = ctx.slowest_ms.max(parse_ms);
+        if std::env::var("C07_TIMING").is_ok() {
+            eprintln!("large {} {} bytes {} defs: gen {gen_ms} ms, real parse+convert {parse_ms} ms", b.shape, b.text.len(), b.defs());
+        }
+        let here = Summ::of(&real);
+        ctx.rep.o_cases += 1;
+        ctx.rep.evaluations += 1;
+        ctx.rep.count(&format!("outcome:{}:{}", b.kind, real.kind()));
+        ctx.rep.count("stream:large");
+        let good = matches!(&real, Res::Ok(got) if *got == b.expect);
+        if good {
+            ctx.rep.nontrivial(&format!("{}|{}", b.kind, b.text));
+        } else {
+            reduce_in_process_failure(ctx.rep, run, &call_of_big(&b, &params), &here, &mut reduce_budget);
+        }
+        // ---- K on a sample (the Lean interpreter needs ≈ 2 s per MB)
+        if b.text.len() <= k_left && b.text.len() <= K_DOC_LIMIT {
+            k_left -= b.text.len();
+            k_bytes += b.text.len() as u64;
+            ctx.judge_o = false;
+            ctx.run(&[Case { kind: b.kind, text: b.text.clone(), expect: None, label: format!("large:{}", b.shape), features: vec!["large:k-sampled".into()] }]);
+            ctx.judge_o = true;
+            ctx.rep.evaluations -= 1;
+            if std::env::var("C07_TIMING").is_ok() {
+                eprintln!("   K on it: {} ms", t0.elapsed().as_millis() - parse_ms);
+            }
+        }
+    }
+    (docs, bytes, largest, k_bytes)
+}
+
+fn small_calls(rng: &mut Rng) -> Vec<Call> {
+    let cfg = GenCfg { hostile_text: rng.coin(), descriptions: true, max_depth: 2 + rng.below(3), ..GenCfg::default() };
+    let schema = gen_schema(rng, &cfg);
+    let mut out = vec![];
+    let o = RenderOpts { noisy: rng.coin(), bom: rng.chance(1, 8), block_desc: rng.chance(1, 3), crlf: rng.chance(1, 4) };
+    let mut m = if rng.coin() { schema.doc.clone() } else { split_into_extensions(rng, &schema) };
+    let mut lead = rng.fork();
+    let (text, _) = render_ts(&mut m, &o, rng.fork(), &mut lead);
+    let (mt, ml) = mutate::mutate(rng, &text);
+    out.push(Call::literal("ts", text, Some(m.to_sexp()), "ts:small:valid:type-system".into()));
+    out.push(Call::literal("ts", mt, None, format!("ts:small:mutated:{ml}")));
+    let (doc, _) = gen_doc(rng, &schema, &cfg);
+    let mut d = doc.clone();
+    let mut fs = vec![];
+    add_imports(rng, &mut d, &mut fs);
+    set_shorthand(rng, &mut d, &mut fs);
+    let o = RenderOpts { noisy: rng.coin(), bom: rng.chance(1, 8), block_desc: false, crlf: rng.chance(1, 4) };
+    let (text, _) = render_op(&mut d, &o, rng.fork());
+    let (mt, ml) = mutate::mutate(rng, &text);
+    out.push(Call::literal("op", text, Some(d.to_sexp()), "op:small:valid:operation".into()));
+    out.push(Call::literal("op", mt, None, format!("op:small:mutated:{ml}")));
+    out
+}
+
+/// (sequences, calls)
+fn sequence_stream(ctx: &mut Ctx, run: &mut Runner, rng: &mut Rng, args: &Args) -> (u64, u64) {
+    let rounds = args.budget(2, 8);
+    let per_round = args.budget(4, 8);
+    let (lo, hi) = (112_000usize, args.budget(200_000, 2_000_000));
+    let depth = args.budget(48, 120);
+    let mut min_budget = 2usize;
+    let (mut n_seq, mut n_calls) = (0u64, 0u64);
+    for r in 0..rounds {
+        // ---- the pool of this round: tiny, small (valid + mutated) and large (valid + mutated) documents of both kinds
+        let tr = std::time::Instant::now();
+        let mut pool = small_calls(rng);
+        let smalls = pool.len();
+        pool.extend(tiny_calls());
+        let target = |rng: &mut Rng| lo + rng.below(hi - lo);
+        let t1 = target(rng);
+        let s1 = rng.below(4);
+        let g1 = GenParams { rng_state: rng.0, shape: s1, target: t1, depth, prefix: None, mutate_state: None };
+        let big_ts = big::gen_big(rng, s1, t1, depth);
+        let t2 = target(rng);
+        let s2 = 4 + rng.below(4);
+        let g2 = GenParams { rng_state: rng.0, shape: s2, target: t2, depth, prefix: None, mutate_state: None };
+        let big_op = big::gen_big(rng, s2, t2, depth);
+        let larges = pool.len();
+        pool.push(call_of_big(&big_ts, &g1));
+        pool.push(call_of_big(&big_op, &g2));
+        let (victim, gv) = if r % 2 == 0 { (&big_ts, &g1) } else { (&big_op, &g2) };
+        let ms = rng.0;
+        let (mt, ml) = mutate::mutate(rng, &victim.text);
+        pool.push(Call { kind: victim.kind, text: mt, expect: None, bounds: vec![], tag: format!("{}:large:mutated:{ml}", victim.kind), gen: Some(GenParams { mutate_state: Some(ms), ..gv.clone() }) });
+        // ---- every document alone in a fresh process; rendered ones must give the document they denote
+        let tf = std::time::Instant::now();
+        let fresh: Vec<Summ> = pool.iter().map(|c| run.fresh(c)).collect();
+        if std::env::var("C07_TIMING").is_ok() {
+            eprintln!("round {r}: pool generated in {} ms, {} fresh runs in {} ms", tr.elapsed().as_millis() - tf.elapsed().as_millis(), pool.len(), tf.elapsed().as_millis());
+        }
+        for (c, s) in pool.iter().zip(fresh.iter()) {
+            ctx.rep.evaluations += 1;
+            ctx.rep.count(&format!("fresh-call:{}:{}", c.tag.split(':').take(3).collect::<Vec<_>>().join(":"), s.outcome));
+            if c.expect.is_some() {
+                ctx.rep.o_cases += 1;
+                if let Some((sig, what)) = seq::judge_expect(run, c, s) {
+                    let m = if min_budget > 0 { min_budget -= 1; seq::minimise_single(run, c, &sig) } else { c.clone() };
+                    ctx.rep.fail("O", &sig, &what, seq::seq_case(&[], &m, "document-in-fresh-process"));
+                }
+            } else if s.outcome == "panic" || s.outcome == "crash" {
+                // texts without a known denotation must still not panic or kill the process
+                ctx.rep.o_cases += 1;
+                let sig = if s.outcome == "panic" { format!("panic:{}", s.detail) } else { format!("crash:{}", c.tag.split(':').take(3).collect::<Vec<_>>().join("-")) };
+                ctx.rep.fail("O", &sig, &format!("{:?}… makes the parser {}: {}", c.text.chars().take(200).collect::<String>(), s.outcome, s.detail), seq::seq_case(&[], c, "document-in-fresh-process"));
+            }
+        }
+        // ---- sequences over the pool in ONE process each, in varying orders
+        for k in 0..per_round {
+            let mut order: Vec<usize> = vec![];
+            // every (small or tiny predecessor, large successor) pair is met within the rounds; then random calls,
+            // repetitions allowed (the same text twice in one process must give the same answer)
+            order.push((r * per_round + k) % larges);
+            order.push(larges + rng.below(pool.len() - larges));
+            for _ in 0..rng.below(5) {
+                order.push(rng.below(pool.len()));
+            }
+            if rng.chance(1, 3) {
+                // sometimes the large document comes first
+                order.swap(0, 1);
+            }
+            let _ = smalls;
+            let calls: Vec<&Call> = order.iter().map(|&i| &pool[i]).collect();
+            let fr: Vec<&Summ> = order.iter().map(|&i| &fresh[i]).collect();
+            let judged = seq::check_sequence(ctx.rep, run, &calls, &fr, "sequence", false, &mut min_budget);
+            ctx.rep.o_cases += judged;
+            ctx.rep.count("stream:sequence");
+            ctx.rep.count(&format!("sequence:length:{}", calls.len()));
+            n_seq += 1;
+            n_calls += judged;
+        }
+        if std::env::var("C07_TIMING").is_ok() {
+            eprintln!("round {r}: total {} ms", tr.elapsed().as_millis());
+        }
+    }
+    (n_seq, n_calls)
+}
+
+/// replay of a stored sequence case: each call alone in a fresh process, then the whole sequence in one process
+fn replay_sequence(rep: &mut Report, run: &mut Runner, calls: &[Call], label: &str) {
+    let fresh: Vec<Summ> = calls.iter().map(|c| run.fresh(c)).collect();
+    for (c, s) in calls.iter().zip(fresh.iter()) {
+        rep.evaluations += 1;
+        if c.expect.is_some() {
+            rep.o_cases += 1;
+            if let Some((sig, what)) = seq::judge_expect(run, c, s) {
+                rep.fail("O", &sig, &what, seq::seq_case(&[], c, label));
+            }
+        } else if s.outcome == "panic" || s.outcome == "crash" {
+            rep.o_cases += 1;
+            let sig = if s.outcome == "panic" { format!("panic:{}", s.detail) } else { format!("crash:{}", c.tag.split(':').take(3).collect::<Vec<_>>().join("-")) };
+            rep.fail("O", &sig, &format!("{:?}… makes the parser {}: {}", c.text.chars().take(200).collect::<String>(), s.outcome, s.detail), seq::seq_case(&[], c, label));
+        }
+    }
+    let mut none = 0usize;
+    let refs: Vec<&Call> = calls.iter().collect();
+    let fr: Vec<&Summ> = fresh.iter().collect();
+    rep.o_cases += seq::check_sequence(rep, run, &refs, &fr, label, true, &mut none);
+}
+
 fn main() {
     let args = Args::parse();
+    if let Some(job) = args.extra.get("seq-child") {
+        // child of the stateful-sequence stream: run the calls of the job file in this (fresh) process
+        seq::child_main(job, &args.out);
+        return;
+    }
     quiet_panics();
     let mut rep = Report::new("C07", RULE);
     let mut drv = Driver::spawn(&args.driver);
-    let mut ctx = Ctx { rep: &mut rep, drv: &mut drv, slowest_ms: 0 };
+    let mut ctx = Ctx { rep: &mut rep, drv: &mut drv, slowest_ms: 0, judge_o: true };
 
     if let Some(path) = &args.replay {
         let v: Value = serde_json::from_str(&std::fs::read_to_string(path).expect("replay file")).expect("replay json");
         let c = &v["case"];
+        if c["kind"].as_str() == Some("seq") {
+            let calls: Vec<Call> = c["calls"].as_array().map(|a| a.iter().map(Call::from_json).collect()).unwrap_or_default();
+            let mut run = Runner::new(&args.scratch);
+            replay_sequence(ctx.rep, &mut run, &calls, c["label"].as_str().unwrap_or("replay"));
+            rep.write(&args);
+            return;
+        }
         let kind = if c["kind"].as_str() == Some("ts") { "ts" } else { "op" };
         let case = Case {
             kind,
@@ -373,7 +641,9 @@ fn main() {
 
     let mut rng = Rng::new(args.seed);
     let search = args.extra.get("search").is_some();
-    let n_schemas = if search { 1500 } else { args.budget(260, 2600) };
+    // `--streams new` (debugging aid): only the large-document and stateful-sequence streams
+    let only_new = args.extra.get("streams").map(|s| s.as_str()) == Some("new");
+    let n_schemas = if only_new { 0 } else if search { 1500 } else { args.budget(260, 2600) };
     let mut batch: Vec<Case> = vec![];
     for i in 0..n_schemas {
         let cfg = GenCfg { hostile_text: i % 3 == 0, descriptions: true, max_depth: 2 + rng.below(3), ..GenCfg::default() };
@@ -447,7 +717,16 @@ fn main() {
     ctx.run(&batch);
     let blocks = block_cases(&mut rng, args.budget(200, 2000));
     ctx.run(&blocks);
+    let mut run = Runner::new(&args.scratch);
+    let t_large = std::time::Instant::now();
+    let large = large_stream(&mut ctx, &mut run, &mut rng, &args);
+    let large_ms = t_large.elapsed().as_millis() as u64;
+    let t_seq = std::time::Instant::now();
+    let seqs = sequence_stream(&mut ctx, &mut run, &mut rng, &args);
+    let seq_ms = t_seq.elapsed().as_millis() as u64;
     let slow = ctx.slowest_ms;
+    rep.extra.insert("large_documents".into(), json!({"documents": large.0, "bytes": large.1, "largest_bytes": large.2, "k_sampled_bytes": large.3, "ms": large_ms}));
+    rep.extra.insert("stateful_sequences".into(), json!({"sequences": seqs.0, "calls": seqs.1, "child_processes": run.children, "ms": seq_ms}));
     rep.extra.insert("slowest_real_parse_ms".into(), json!(slow as u64));
     rep.extra.insert("schemas".into(), json!(n_schemas));
     rep.write(&args);
